@@ -2205,6 +2205,7 @@ def check_C16(tier, seed):
     out = core.run_side(core.TLIMPL_DEBUG, cases + extra, env=env, announce=True)
     nv = 0
     distinct = set()
+    cases_with_entries = set()
     nentries = 0
     for c, meta in list(zip(cases, metas)) + [(c, None) for c in extra]:
         ls = out.get(c.cid, [])
@@ -2262,10 +2263,11 @@ def check_C16(tier, seed):
                 in_this_text = re.search(r'\(\s*tick\s+%d\b' % meta['tick'], re.sub(r';[^\n]*\n', ' ', body)) is not None
                 if in_this_text and not re.match(r'\(\s*tick\s+%d\b' % meta['tick'], re.sub(r';[^\n]*\n', ' ', src)):
                     bad('innermost located entry is not the failing host call (tick %d ...)' % meta['tick'], {'entry': m.group(0), 'source_there': src[:100]})
-            distinct.add((sl, sc, el, ec, shown[:20]))
+            distinct.add((sl, sc, el, ec, shown[:20])); cases_with_entries.add((c.cid, sl, sc, el, ec))
     replay_known(res, 'C16')
     res.cov['located_entries_checked'] = nentries
-    res.cov['distinct_nontrivial'] = len(distinct)
+    res.cov['distinct_located_entries'] = len(distinct)
+    res.cov['distinct_nontrivial'] = len(set(x[0] for x in cases_with_entries))
     res.cov['rule'] = ('reader: %d data texts in random layouts after non-ASCII / multi-line prefixes, spans of every list and symbol equal to the model (Reader.read_ax); '
                        'evaluation: %d generated programs laid out with random line breaks, indentation, comments and non-ASCII padding, a host failure injected at up to 8 evaluation points each, '
                        'evaluated as a string, as a loaded file and through a nested load; Error::format output parsed back; oracle: rendering succeeds, every located entry names the evaluated text / file, '
